@@ -1098,6 +1098,18 @@ def c05_plants(tmpl, g, r, kinds=None):
         st.setdefault("ok:case-dup-total", []).append(["case %s do" % val] + allarms + [allarms[0]] + ["end"])
         st.setdefault("ok:case-dup-total-param", []).append(
             ["zcg :: fn zs do", "    case zs do"] + ["    " + a for a in allarms + [allarms[-1]]] + ["    end", "end", "zcg(%s)" % val])
+    # break / continue in the CONDITION of a loop (a loop condition is not part of any loop body: fcfe8d3); the slots inside
+    # loop bodies give the nested form, where the statement used to be taken for the enclosing loop
+    st["loop-cond-break"] = [['loop (if true do', '    break', 'else do', '    false', 'end) do', '    break', 'end'],
+                             ['loop true do', '    loop (if true do', '        break', '    else do', '        false', '    end) do',
+                              '        break', '    end', '    break', 'end'],
+                             ['loop true do', '    loop (case ZEV do', '        P x -> break end', '        else false end', '    end) do',
+                              '        break', '    end', '    break', 'end']]
+    st["loop-cond-continue"] = [['loop (if false do', '    continue', 'else do', '    false', 'end) do', '    break', 'end'],
+                                ['loop true do', '    loop (if false do', '        continue', '    else do', '        false', '    end) do',
+                                 '        break', '    end', '    break', 'end']]
+    st["ok:loop-body-break"] = [['loop true do', '    loop (if true do', '        true', '    else do', '        false', '    end) do',
+                                 '        break', '    end', '    break', 'end']]
     ex["tuple-index-range"] = ["ZT[2]", "(1, 2, 3)[7]"]
     st["tuple-length"] = [["zs2: (int, int) = (1, 2, 3)"], ["zs3 := (1, 2)", "zs3 = (1, 2, 3)"]]
     ex["tuple-length"] = ["((1, 2) == (1, 2, 3))"]
